@@ -436,13 +436,21 @@ def vspace(ctx, world):
         if tref is not None and tref.qual == "numpy.ndarray":
             found = True
             good = False
-            if isinstance(maker, ast.Lambda) and isinstance(maker.body, ast.IfExp):
-                test = maker.body.test
-                r = world.repo.resolve_expr(mm, test.func) if isinstance(test, ast.Call) else None
-                tb = world.repo.resolve_expr(mm, maker.body.body.func) if isinstance(maker.body.body, ast.Call) else None
-                fb = world.repo.resolve_expr(mm, maker.body.orelse.func) if isinstance(maker.body.orelse, ast.Call) else None
-                if r is not None and r.qual == "numpy.iscomplexobj" and tb is not None and fb is not None:
-                    good = tb.qual == cx.qual and fb.qual == ar.qual
+            if maker is not None:
+                from ..terms import Scope, T
+                from ..tutil import cases, expand, unseq
+
+                ev = world.ev
+                clo, pre, prekw = ev.as_closure(ev.ev(maker, Scope(), mm))
+                if clo is not None and not pre and not prekw:
+                    xs = T("sym", name="x", role="param")
+                    body = unseq(expand(ev, ev.apply(clo, [xs], {}, []), ()))
+                    is_test = lambda a: a.op == "call" and a.fn.op == "ref" and a.fn.ref.qual == "numpy.iscomplexobj" and len(a.args) == 1 and a.args[0] is xs
+                    def makes(t, k):
+                        return t.op == "call" and t.fn.op == "ref" and t.fn.ref.qual == k.qual and len(t.args) == 1 and t.args[0] is xs and not t.kw
+                    cs = cases(body)
+                    good = bool(cs) and all((c.pol(is_test) is True and makes(c.leaf, cx)) or (c.pol(is_test) is False and makes(c.leaf, ar)) for c in cs)
+                    good = good and any(c.pol(is_test) is True for c in cs) and any(c.pol(is_test) is False for c in cs)
             if good:
                 ctx.ob("A4.vspace", "ndarray factory dispatches on iscomplexobj", True, loc_of(mm, site))
             else:
